@@ -95,6 +95,10 @@ Definition at_vars (idx : list nat) (S : bspec) : bspec :=
             | None => None
             end.
 
+(* a spec restricted by an explicit boolean guard (used only for operands on which a KNOWN, reported defect of the
+   library makes the documented formula false; each use comes with a generated `_refuted` example) *)
+Definition guarded (defect : list N -> bool) (S : bspec) : bspec := fun vs => if defect vs then None else S vs.
+
 Definition sgn (k : N) (x : N) : Z := if x <? 2 ^ (k - 1) then Z.of_N x else (Z.of_N x - 2 ^ Z.of_N k)%Z.
 Definition usg (k : N) (z : Z) : N := Z.to_N (z mod 2 ^ Z.of_N k).
 Fixpoint pop_pos (p : positive) : N := match p with xH => 1 | xO q => pop_pos q | xI q => 1 + pop_pos q end.
